@@ -122,21 +122,22 @@ Inductive top :=
 | TAwait                   (* co_await Await(task) *)
 | TDestroy.                (* ~Task *)
 
-(* what has happened so far: callbacks invoked, functors destroyed, results delivered to whoever started the chain;
-   [w_ub]: the implementation has run into undefined behaviour *)
-Record tworld := TW { w_state : tstate; w_evs : list event; w_freed : list nat; w_results : list res; w_ub : bool }.
+(* what has happened so far: callbacks invoked, functors destroyed, results delivered to whoever started the chain *)
+Record tworld := TW { w_state : tstate; w_evs : list event; w_freed : list nat; w_results : list res }.
 
-Definition tinit (h : lhead) : tworld := TW (TUnstarted (Task h [])) [] [] [] false.
+Definition tinit (h : lhead) : tworld := TW (TUnstarted (Task h [])) [] [] [].
 
-(* ~Task on a completed Task (task.hpp:39-43): Valid() → Cancel() → Detach(MakeInline(StopTag{})) → StoreCallback(MakeDrop())
-   over the kResult word, Start(core, e) → e.Submit(core) → Drop() on the *finished* last core:
-     ReadyCore::Drop / PromiseType::Drop overwrite the result with StopError and complete again into the Drop core,
-       which releases the core: nothing else happens;
-     Core<Run>::Drop / PromiseCore::Drop run ~Storage() on the functor a second time;
-     a Then-core's Drop → CallImpl → Done reads _self.caller out of the union that holds the Result by now. *)
+(* ~Task (task.hpp:39-44, since ac7df75): if (Valid() && !Ready()) Cancel(); a completed Task only drops its
+   IntrusivePtr, which releases the last core and the Result in it.
+
+   Before ac7df75 ~Task cancelled whenever Valid(): Detach(MakeInline(StopTag{})) stored MakeDrop() over the kResult word
+   and submitted the *finished* last core to the stopped executor, i.e. called Drop() on it a second time:
+     ReadyCore::Drop / PromiseType::Drop overwrote the result with StopError and completed again into the Drop core;
+     Core<Run>::Drop / PromiseCore::Drop ran ~Storage() on the functor a second time;
+     a Then-core's Drop -> CallImpl -> Done read _self.caller out of the union that held the Result by then. *)
 Inductive drop_effect := DRelease | DFreeAgain (id : nat) | DUndefined.
 
-Definition drop_completed (tk : task) : drop_effect :=
+Definition drop_completed_before_ac7df75 (tk : task) : drop_effect :=
   match rev (t_steps tk) with
   | _ :: _ => DUndefined
   | [] =>
@@ -151,31 +152,26 @@ Definition tstep (w : tworld) (o : top) : option tworld :=
   match w_state w, o with
   | TUnstarted tk, TThen s =>
       (* SetCallback, Lazy branch: callback->next = caller; caller->StoreCallback( *callback) — nothing is submitted *)
-      Some (TW (TUnstarted (Task (t_head tk) (t_steps tk ++ [s]))) (w_evs w) (w_freed w) (w_results w) (w_ub w))
+      Some (TW (TUnstarted (Task (t_head tk) (t_steps tk ++ [s]))) (w_evs w) (w_freed w) (w_results w))
   | TUnstarted tk, TStart s =>
       match run_task s tk with
-      | Some (out, freed) => Some (TW TGone (w_evs w ++ o_evs out) (w_freed w ++ freed) (w_results w ++ [o_res out]) (w_ub w))
+      | Some (out, freed) => Some (TW TGone (w_evs w ++ o_evs out) (w_freed w ++ freed) (w_results w ++ [o_res out]))
       | None => None
       end
   | TUnstarted tk, TAwait =>
       match run_task SOwn tk with
       | Some (out, freed) =>
-          Some (TW (TCompleted tk out) (w_evs w ++ o_evs out) (w_freed w ++ freed) (w_results w ++ [o_res out]) (w_ub w))
+          Some (TW (TCompleted tk out) (w_evs w ++ o_evs out) (w_freed w ++ freed) (w_results w ++ [o_res out]))
       | None => None
       end
   | TUnstarted tk, TDestroy =>
       match cancel tk with
-      | Some (out, freed) => Some (TW TGone (w_evs w ++ o_evs out) (w_freed w ++ freed) (w_results w) (w_ub w))
+      | Some (out, freed) => Some (TW TGone (w_evs w ++ o_evs out) (w_freed w ++ freed) (w_results w))
       | None => None
       end
-  | TCompleted tk out, TDestroy =>
-      match drop_completed tk with
-      | DRelease => Some (TW TGone (w_evs w) (w_freed w) (w_results w) (w_ub w))
-      | DFreeAgain id => Some (TW TGone (w_evs w) (w_freed w ++ [id]) (w_results w) (w_ub w))
-      | DUndefined => Some (TW TGone (w_evs w) (w_freed w) (w_results w) true)
-      end
+  | TCompleted tk out, TDestroy => Some (TW TGone (w_evs w) (w_freed w) (w_results w))   (* Ready(): release only *)
   | TGone, TDestroy => Some w            (* !Valid(): nothing *)
-  | _, _ => None                         (* not expressible: the handle was moved from / asserts !Ready() *)
+  | _, _ => None                         (* not expressible: the handle was moved from / Then asserts !Ready() *)
   end.
 
 Fixpoint trun (w : tworld) (ops : list top) : option tworld :=
